@@ -165,3 +165,34 @@ CHECKS["C04"] = dict(
         technique="exhaustive enumeration of argument-shape grids on the sanitizer-instrumented implementation (sanitizer + canaries as oracle)",
         ref="DESIGN.md 3/C04"),
 )
+
+CHECKS["C05"] = dict(
+    level="exploration",
+    jobs=lambda tier: [dict(name="c05", variant="o2", sources=["e_c05.c"] + RT)],
+    coverage=lambda stats, tier: dict(
+        evaluations=int(stats.get("evaluations", 0)),
+        distinct_nontrivial=int(stats.get("distinct_nontrivial", 0)),
+        rule="inputs: 3 base settings per method (two bare forms and a full hash) x every position x every byte value 1..255 and every "
+             "truncation; 14 fixed invalid classes (tokens, NULLs, 512/513/600-byte phrases, ...) x 16 methods; every '$'+1- and 2-character "
+             "unknown tag; crypt_rn sizes {INT_MIN,-1,0..4,383,384,sizeof-1}; each through crypt_rn/crypt_r/crypt_ra/crypt from 3 prior object "
+             "states (quick: all 12 combinations for the property's special bytes and truncations, 2 combinations otherwise; thorough: all). "
+             "histories: breadth-first search to closure over 3 entry points x 8 requests x 2 objects, state = hash of the objects' output/"
+             "internal/reserved/initialized fields; distinct_nontrivial = distinct (setting, entry point, prior state) failing calls",
+        states=int(stats.get("history_states", 0)), transitions=int(stats.get("history_transitions", 0)),
+        history_closure=bool(stats.get("history_closure", 0)), history_depth=int(stats.get("max_history_depth", 0))),
+    assumptions=["a NULL data pointer is a caller error and is not exercised",
+                 "mandatory failures are those the property lists (forbidden byte, unknown prefix, NULL, 512+ bytes, '*' settings, small size); "
+                 "any other edited setting may succeed, but then its result must be a well-formed hash of the method and not carry the previous call's digest",
+                 "ENABLE_FAILURE_TOKENS is read from the tree's config.h"],
+    nonvacuous=lambda s, t: None if s.get("failures", 0) > 50000 and s.get("successes", 0) > 5000 and s.get("history_states", 0) > 5 else "too few failures/successes/history states",
+    deadline=dict(quick=300, thorough=1700),
+    manifest=dict(
+        text="Bounded exhaustive exploration: every byte value at every position of valid settings of all 16 methods, every truncation, every "
+             "short unknown tag and the fixed invalid classes, through all four entry points and from three prior object states; plus an "
+             "explicit-state breadth-first search to closure over call histories on two shared objects. The oracle is the fail-closed rule "
+             "(NULL/token, errno class, '*0'/'*1' output that is itself rejected, never the earlier hash) evaluated on every call.",
+        note="gcc -O2 build; the generic character rule and the token rule are small independent models; which malformed-parameter edits fail is not "
+             "prescribed, only that a success is a real, fresh hash.",
+        technique="exhaustive enumeration of byte x position x entry point x prior-state grids, and explicit-state BFS to closure over call histories, on the implementation",
+        ref="DESIGN.md 3/C05"),
+)
